@@ -44,6 +44,8 @@ class Calls(Interp):
                 sv = self.ev(a.value)
                 if isinstance(sv, VTuple):
                     args.extend(sv.items)
+                elif isinstance(sv, VObj):
+                    args.append(VStar(sv))   # an opaque argument tuple passed through unchanged
                 else:
                     raise Unsupported("star-args of non-tuple")
             else:
@@ -113,6 +115,19 @@ class Calls(Interp):
         if fi.kind == "class":
             args = [VClass(fi.cls, fi.module)] + list(args)
         binding = {}
+        if args and isinstance(args[-1], VStar):
+            if a.vararg is None or any(isinstance(x, VStar) for x in args[:-1]):
+                raise Unsupported("opaque *args passed to a function without *args")
+            binding[a.vararg.arg] = args[-1].obj
+            args = args[:-1]
+            if len(args) > len(names):
+                raise Unsupported("opaque *args after surplus positionals")
+        if "**" in kwargs:
+            kwargs = dict(kwargs)
+            kw = kwargs.pop("**")
+            if a.kwarg is None:
+                raise Unsupported("opaque **kwargs passed to a function without **kwargs")
+            binding[a.kwarg.arg] = kw
         if len(args) > len(names):
             if a.vararg is None:
                 raise PyRaise(VExc("TypeError", []))
@@ -138,6 +153,8 @@ class Calls(Interp):
                 raise PyRaise(VExc("TypeError", []))
         if a.vararg is not None and a.vararg.arg not in binding:
             binding[a.vararg.arg] = VTuple([])
+        if a.kwarg is not None and a.kwarg.arg not in binding:
+            binding[a.kwarg.arg] = self.new_box(EmptyV("dict"))
         return binding
 
     def call_function(self, fi, args, kwargs, node=None):
@@ -300,6 +317,9 @@ class Calls(Interp):
         named property's own check over the same functions (modular: proved there, used here)."""
         prop = self.opts.get("prop")
         tags = split_tag(text)[0]
+        if tags is not None and "effect" in tags:
+            # a ghost effect defined by the contract itself ("this function returned normally"): assumed at call sites, nothing to prove in the body
+            return assuming
         if prop is None or tags is None or prop in tags:
             return True
         return assuming and any(t in self.opts.get("assume_props", ()) for t in tags)
@@ -331,17 +351,23 @@ class Calls(Interp):
             self.spec_mode -= 1
             self.spec_env = saved
 
-    def in_state(self, st, spec_env, old, fn):
-        saved = (self.st, self.spec_env, self.old_state)
+    pure_code = 0
+
+    def in_state(self, st, spec_env, old, fn, pure_code=False):
+        """Evaluate fn on another state without branching.  pure_code: the expression is *code* (a comprehension element or
+        filter) evaluated as a pure function of the element -- Python operator semantics (`==` is not identity) still apply."""
+        saved = (self.st, self.spec_env, self.old_state, self.pure_code)
         self.st = st
         self.spec_env = spec_env
         self.old_state = old
         self.spec_mode += 1
+        if pure_code:
+            self.pure_code += 1
         try:
             return fn()
         finally:
             self.spec_mode -= 1
-            self.st, self.spec_env, self.old_state = saved
+            self.st, self.spec_env, self.old_state, self.pure_code = saved
 
     # spec builtins ------------------------------------------------------
     def sp_old(self, n):
@@ -383,6 +409,20 @@ class Calls(Interp):
         *tnodes, lam = n.args
         tys = [self.spec_type(t) for t in tnodes]
         params = [a.arg for a in lam.args.args]
+        if self.pol < 0 and not self.bound_ids and self.collector is None:
+            # goal position: proving (forall xs. body) is proving body at fresh constants; nested quantifiers then see no bound variable
+            sks = [self.fresh("sk_" + prm, ty.sort()) for prm, ty in zip(params, tys)]
+            for sk, ty in zip(sks, tys):
+                self.touch(ty, sk)
+            saved_env = self.spec_env
+            env = dict(self.spec_env)
+            for prm, t, ty in zip(params, sks, tys):
+                env[prm] = self.from_term(t, ty)
+            self.spec_env = env
+            try:
+                return VBool(self.truth(self.ev(lam.body)))
+            finally:
+                self.spec_env = saved_env
         p = self.fresh("forall", z3.BoolSort())
         snap = self.st.snapshot()
         env0, old0 = dict(self.spec_env), self.old_state
@@ -940,7 +980,7 @@ class Calls(Interp):
                     self.st.env[var] = self.from_term(k, c.ty.k)
                     conds = [self.truth(self.ev(x)) for x in g.ifs]
                     return z3.And(has[k], *conds)
-                return self.in_state(snap.snapshot(), {}, self.old_state, f)
+                return self.in_state(snap.snapshot(), {}, self.old_state, f, pure_code=True)
             self.injlist_facts(lst, member)
             return self.new_box(lst)
         # (a') a recency order filtered by a pure predicate -> recency order (same stamps)
@@ -958,7 +998,7 @@ class Calls(Interp):
                     self.st.env[var] = self.from_term(k, c.ty.k)
                     conds = [self.truth(self.ev(x)) for x in g.ifs]
                     return z3.And(mem[k], *conds)
-                return self.in_state(snap.snapshot(), {}, self.old_state, f)
+                return self.in_state(snap.snapshot(), {}, self.old_state, f, pure_code=True)
             self.add_universal([c.ty.k], lambda k: mem2[k] == member2(k), "filtered-order")
             return self.new_box(OrdSetV(c.ty, mem2, c.stamp, cnt2, c.clock))
         # (b) pure map over a list
@@ -990,7 +1030,7 @@ class Calls(Interp):
                 self.st.env = dict(env0)
                 self.st.env[var] = self.from_term(c.arr[i], c.ty.e)
                 return self.ev(n.elt)
-            return self.in_state(snap.snapshot(), {}, self.old_state, f)
+            return self.in_state(snap.snapshot(), {}, self.old_state, f, pure_code=True)
         v0 = elt(probe)
         ety = self.type_of(v0)
         arr = self.fresh("map", z3.ArraySort(z3.IntSort(), ety.sort()))
@@ -1009,7 +1049,7 @@ class Calls(Interp):
                 if what == "cond":
                     return z3.And(*[self.truth(self.ev(x)) for x in g.ifs])
                 return self.ev(n.elt)
-            return self.in_state(snap.snapshot(), {}, self.old_state, f)
+            return self.in_state(snap.snapshot(), {}, self.old_state, f, pure_code=True)
         probe = self.fresh("fi", z3.IntSort())
         ety = self.type_of(at(probe, "elt"))
         arr = self.fresh("filt", z3.ArraySort(z3.IntSort(), ety.sort()))
